@@ -271,7 +271,7 @@ class C04(core.Check):
     pid = 'C04'
     driver = 'drv_c01'
     quick_cases = 800
-    thorough_cases = 7500      # (was 9000 before the hardening families made a case ~20% dearer; thorough must stay <= 15 min)
+    thorough_cases = 6000      # (was 9000 before the hardening families made a case ~20% dearer; thorough must stay <= 15 min)
     rule = ("C01's abstract frames (all its dtype / value / container / shared-raw-text / configuration families; every 40th case - "
             '240th in the thorough tier - scales one dimension of the SOURCE frame to a rung of the size ladder; optionally '
             'under a non-default index) are materialized - half of them a second time '
